@@ -368,6 +368,18 @@ def driver(seed, count):
     """seeded call events beyond the TLC instance: integers anywhere in (and around) the 40-bit range"""
     rng = random.Random(seed * 104729 + 19)
     ev = []
+    # in every run, whatever the seed: a digit string with ONE character that is no digit of any base - every printable ASCII
+    # punctuation mark, leading, inner and trailing - as a text literal of a formula and as a direct argument (#NUM!)
+    for f in FUNCS:
+        if f.startswith('DEC'):
+            continue
+        for ch in '$#%&!\'()*~^{}|\\?@:;<>=_/., +-':
+            for s in (ch + '11', '1' + ch + '1', '11' + ch, ch):
+                if (ch in '+-' and s[0] == ch) or (ch == ' ' and s.strip() != s):
+                    continue          # (a sign in front / blanks around the digits: another clause of the specification)
+                for path in ('formula', 'direct'):
+                    ev.append({'f': f, 'args': [T(s)], 'path': path})
+    count -= min(len(ev), count // 2)
     for i in range(count):
         f = rng.choice(FUNCS)
         src, dst = f.split('2')
